@@ -252,9 +252,10 @@ def oracle(case, ans):
             exp = [expected_closure(case, env, o["c"], x) for x in par_extras(o)]
             for ri, rp in enumerate(ob.get("reps") or []):
                 if sorted(rp["lines"]) != sorted(e[0] for e in exp):
-                    wrong = [l for l in rp["lines"] if l not in [e[0] for e in exp]]
-                    bad.append("op %d rep %d: %d concurrent calls of closure %d (%d baked-in arguments) started children with %s, expected one child each with %s" % (
-                        i, ri, len(exp), o["c"], case["closures"][o["c"]]["baked"]["len"], short(wrong or rp["lines"], 500), short([e[0] for e in exp], 500)))
+                    nb = case["closures"][o["c"]]["baked"]["len"]
+                    bad.append("op %d rep %d: %d concurrent calls of closure %d (%d baked-in arguments): after cmd and the baked-in arguments the children received %s, the calls passed %s%s" % (
+                        i, ri, len(exp), o["c"], nb, short(sorted(l[1 + nb:] for l in rp["lines"]), 400), short(sorted(e[0][1 + nb:] for e in exp), 400),
+                        "" if sorted(l[:1 + nb] for l in rp["lines"]) == sorted(e[0][:1 + nb] for e in exp) else "; cmd/baked part differs too: %s" % short(rp["lines"], 500)))
                 for g, e in enumerate(exp):
                     if rp["outs"][g] != e[1]:
                         bad.append("op %d rep %d: concurrent call %d handed back %s, expected %s (its own arguments)" % (i, ri, g, short(rp["outs"][g]), short(e[1])))
